@@ -428,10 +428,29 @@ func bubbleFull(c *explore.Ctx, pc *world.ProducerChain) (out outcome) {
 		at   uint64
 	}
 	var blobs []placed
+	// a data blob may also be absent from the DA layer altogether (the node then gets the data over P2P only): the
+	// chain still syncs, but the DA-included height must stop below that block
+	firstMissing := -1
 	for i := 0; i < pc.Len(); i++ {
 		blobs = append(blobs, placed{pc.HdrBlobs[i], uint64(1 + c.Choose("place", maxDA))})
 		if pc.DatBlobs[i] != nil {
-			blobs = append(blobs, placed{pc.DatBlobs[i], uint64(1 + c.Choose("place", maxDA))})
+			k := c.Choose("place", maxDA+1)
+			if k == maxDA {
+				if firstMissing < 0 {
+					firstMissing = i
+				}
+				ev("data of block %d is not on the DA layer (P2P only)", pc.Initial+uint64(i))
+				continue
+			}
+			blobs = append(blobs, placed{pc.DatBlobs[i], uint64(1 + k)})
+		}
+	}
+	hs := &world.P2PStore[*types.SignedHeader]{}
+	ds := &world.P2PStore[*types.Data]{}
+	if firstMissing >= 0 {
+		for i := 0; i < pc.Len(); i++ {
+			hs.Append1(pc.Header(i))
+			ds.Append1(pc.DataAt(i))
 		}
 	}
 	reported := uint64(0)
@@ -456,7 +475,7 @@ func bubbleFull(c *explore.Ctx, pc *world.ProducerChain) (out outcome) {
 	boot := func(img map[string][]byte) *world.Fail {
 		armed = false
 		sched := world.NewSched(func(n int, names []string) int { return c.Choose("sched", n) })
-		ff, err := world.StartFullL2Sched(p, env, img, nil, nil, onWrite, sched)
+		ff, err := world.StartFullL2Sched(p, env, img, hs, ds, onWrite, sched)
 		if err != nil {
 			return &world.Fail{Clause: "startup", Msg: err.Error()}
 		}
@@ -502,6 +521,9 @@ func bubbleFull(c *explore.Ctx, pc *world.ProducerChain) (out outcome) {
 		}
 		env.DA.SetTip(da)
 		f.TickDA()
+		if firstMissing >= 0 {
+			f.TickP2P()
+		}
 		f.TickIncluder()
 		if f.N.Fate.Crashed() {
 			crashes++
@@ -533,12 +555,21 @@ func bubbleFull(c *explore.Ctx, pc *world.ProducerChain) (out outcome) {
 	// everything is on the DA layer: three more rounds
 	for r := 0; r < 3; r++ {
 		f.TickDA()
+		if firstMissing >= 0 {
+			f.TickP2P()
+		}
 		f.TickIncluder()
 	}
 	if fl := observe("end"); fl != nil {
 		return fail(fl)
 	}
 	top := pc.Initial + uint64(pc.Len()) - 1
+	if firstMissing >= 0 {
+		top = pc.Initial + uint64(firstMissing) - 1
+		if f.N.Height() != pc.Initial+uint64(pc.Len())-1 {
+			return fail(&world.Fail{Clause: "engine", Msg: fmt.Sprintf("with the chain on P2P the node should have synced to %d, it is at %d", pc.Initial+uint64(pc.Len())-1, f.N.Height())})
+		}
+	}
 	if reported != top {
 		return fail(&world.Fail{Clause: "eventually-reported", Msg: fmt.Sprintf("both parts of every block up to %d are on the DA layer and were scanned, the node reports DA-included height %d (chain height %d)", top, reported, f.N.Height())})
 	}
